@@ -1341,6 +1341,13 @@ func (ex *Exec) closeRun(keys []string) []string {
 				}
 			}
 		}
+		// declared function fields whose function is verified in this run: every store to the field
+		fnOrigins := map[string]bool{}
+		for o, target := range ex.specs.FnFields {
+			if have[target] {
+				fnOrigins[o] = true
+			}
+		}
 		// functions that send on / create / store channels of an active element type
 		for _, k := range ex.prog.scopeFuncKeys() {
 			if have[k] {
@@ -1354,6 +1361,11 @@ func (ex *Exec) closeRun(keys []string) []string {
 			for _, b := range fn.Blocks {
 				for _, in := range b.Instrs {
 					ts := map[string]bool{}
+					if st, ok := in.(*ssa.Store); ok && len(fnOrigins) > 0 {
+						if r, p, ok := staticRoot(st.Addr); ok && fnOrigins["H."+r+"."+strings.TrimSuffix(p, ".")] {
+							hit = true
+						}
+					}
 					switch x := in.(type) {
 					case *ssa.Send:
 						ts[chanElemKey(x.Chan.Type())] = true
